@@ -386,6 +386,24 @@ func (s *Sim) checkKeep(v *view, op string) {
 			}
 			if !sameApp {
 				s.alarm("C01", "ip-moved-between-owners", fmt.Sprintf("%s moved from %q to %q without being released", ip, prev.Key, cur.Key))
+			} else if wl != nil && !pk.IsPrefix() && ck.IsPrefix() {
+				if wl.Kind != KDp {
+					// only deployment pods hand their IP to the app/pool reserve; every other identity keeps it under its own key
+					s.alarm("C02", "non-deployment-pod-ip-moved-to-pool-reserve:"+wl.Kind.String(), fmt.Sprintf(
+						"%s of %s pod key %q was re-keyed to the reserve %q: the identity lost its IP", ip, wl.Kind, prev.Key, cur.Key))
+				} else if wl.Pool == "" && prev.Policy == 1 {
+					cnt := 0
+					pre := s.prefixKey(wl)
+					for _, e := range s.prevDump {
+						if strings.HasPrefix(e.Key, pre) {
+							cnt++
+						}
+					}
+					if rmax := s.maxReplicasRecent(wl); cnt > rmax {
+						s.alarm("C03", "deployment-ip-reserved-although-app-holds-more-than-replicas", fmt.Sprintf(
+							"%s of vanished pod %q was kept in reserve although deployment %s held %d IPs with replicas <= %d", ip, prev.Key, wl.Name, cnt, rmax))
+					}
+				}
 			}
 			continue
 		}
@@ -445,6 +463,24 @@ func (s *Sim) minReplicasRecent(wl *Workload) int {
 			if r < m {
 				m = r
 			}
+		}
+	}
+	return m
+}
+
+// maxReplicasRecent is the largest replica count the plugin may legitimately have seen: truth now, lister now, and
+// every value truth had during the history (the lister can lag arbitrarily).
+func (s *Sim) maxReplicasRecent(wl *Workload) int {
+	m := 0
+	if wl.Exists {
+		m = wl.Replicas
+	}
+	if ex, lr := s.listerReplicas(wl); ex && lr > m {
+		m = lr
+	}
+	for _, r := range s.replHist[wl.Name] {
+		if r > m {
+			m = r
 		}
 	}
 	return m
@@ -868,6 +904,16 @@ func (s *Sim) checkFilter(p *corev1.Pod, err error) {
 			s.alarm("C02", "deployment-pod-offered-nodes-without-taking-reserve", fmt.Sprintf(
 				"pod %s of %s: app held %v in reserve, filter offered %v but did not give the pod one of them", p.Name, wl.Name, r.reservedAtFilter, r.Offered))
 		}
+	}
+	// C02 (deployment / pool, policy immutable or never): while the app's pods already hold as many IPs as it has
+	// replicas, a replacement pod is made to wait for the old pod's IP instead of being given a fresh one
+	if wl.Kind == KDp && wl.effPolicy() != 0 && len(r.heldAtFilter) == 0 && err == nil && clean && r.FilterOK && r.PoolSizeAtFilter < 0 {
+		if rmax := s.maxReplicasRecent(wl); r.UsedAtFilter >= rmax {
+			s.alarm("C02", "replacement-pod-not-made-to-wait-for-old-ip", fmt.Sprintf(
+				"pod %s of deployment %s (replicas <= %d): the app's pods already held %d IPs, yet filter offered %v instead of waiting for an old pod's IP",
+				p.Name, wl.Name, rmax, r.UsedAtFilter, r.Offered))
+		}
+		s.Counts["c02_dp_replacement_filters"]++
 	}
 	// C06: a pod that already holds an IP is only offered nodes from which that IP is routable
 	if err == nil && len(held) > 0 {
